@@ -360,7 +360,7 @@ func propagatesCallError(v ssa.Value, depth int) bool {
 	case *ssa.Extract:
 		return true
 	case *ssa.Phi:
-		for _, e := range x.Edges {
+		for _, e := range ssax.FeasibleEdges(x) {
 			if ssax.IsNilConst(ssax.Resolve(e)) {
 				continue
 			}
